@@ -28,8 +28,8 @@
    Missing for the full statement: match expressions (the model has them, the theorem does not),
    the instantiation step inst_const (modelled, tied by the correspondence; no lemma yet that it
    preserves `models`), the second strategy for numeric quantifiers (Z3 oracle). *)
-From ISLA Require Import Semantics Eval EvalAtoms EvalFacts.
 From Coq Require Import ZArith.
+From ISLA Require Import Semantics Eval EvalAtoms EvalFacts MatchFacts EvalMexprFacts EvalMexprCheck.
 
 (* the executable specification-side oracle decides the specification semantics *)
 Theorem C03_satb_spec : forall (A : Type) (adenote : A -> (var -> option tree) -> Prop) (c : tree)
@@ -143,3 +143,155 @@ Theorem C03_eval_consecutive_refuted :
   m_legacy W4_tree W4_formula = Ok TT /\ ~ models atom_denote W4_tree env_empty W4_formula.
 Proof. exact eval_consecutive_refuted. Qed.
 Print Assumptions C03_eval_consecutive_refuted.
+
+(* ====================================================================================== *)
+(* Proof extension: quantifiers WITH match expressions                                     *)
+(* ====================================================================================== *)
+
+(* Step 1 — language.match (py_match) against the specification's match (smatch).  For a prefix
+   tree m with variable paths P that is well-formed (mtree_okb: every path ends in a leaf of m,
+   every leaf of m is bound by exactly one variable of the leaf's type, terminal leaves by dummy
+   variables, inner nodes are not open), has no closed nonterminal leaf (guard excluding
+   K_mexpr_eps_shape) and pairwise distinct variables, and for a regular subject t (closed;
+   terminal-labelled nodes have no children): match never raises (none of its asserts fires),
+   returns None exactly when the specification's match is bottom, and otherwise returns the
+   specification's assignment (positions), each position holding the recorded subtree of the
+   variable's type, and covering every leaf of t (is_complete_match / the coverage filter). *)
+Theorem C03_py_match_spec : forall m t P here,
+  has_closed_nt_leaf m = false -> mtree_okb m P = true -> NoDup (map fst P) -> regb t = true ->
+  match smatch m t P here with
+  | None => py_match m t P here = Ok None
+  | Some bs => exists r, py_match m t P here = Ok (Some r) /\ strip r = bs /\
+                 Forall (entry_ok t here) r /\ complete_match t here r = true
+  end.
+Proof. exact py_match_spec. Qed.
+Print Assumptions C03_py_match_spec.
+
+(* the specification's match on a well-formed prefix tree binds exactly the variables of P, at
+   the positions of P moved to the subject (up to order); and it commutes with moving the subject *)
+Theorem C03_smatch_perm : forall m t P here bs,
+  mtree_okb m P = true -> smatch m t P here = Some bs -> Permutation.Permutation bs (shift here P).
+Proof. exact smatch_perm. Qed.
+Print Assumptions C03_smatch_perm.
+
+Theorem C03_smatch_shift : forall m t P h here,
+  smatch m t P (h ++ here) = option_map (shift h) (smatch m t P here).
+Proof. exact smatch_shift. Qed.
+Print Assumptions C03_smatch_shift.
+
+(* non-vacuity of C03_py_match_spec: the real prefix tree of "{<var> lhs} := {<var> rhs}" on the
+   node "y := x" of the parse tree of "x := 1 ; y := x": three bindings *)
+Example C03_py_match_example :
+  exists t r, subtree M1_tree [0; 2; 0] = Some t /\
+    has_closed_nt_leaf (fst M1_tp) = false /\ mtree_okb (fst M1_tp) (snd M1_tp) = true /\
+    NoDup (map fst (snd M1_tp)) /\ regb t = true /\
+    py_match (fst M1_tp) t (snd M1_tp) [] = Ok (Some r) /\
+    smatch (fst M1_tp) t (snd M1_tp) [] = Some (strip r) /\ length r = 3.
+Proof. exact py_match_example. Qed.
+Print Assumptions C03_py_match_example.
+
+(* Steps 2-4 — evaluate_legacy = specification, match expressions included (abstract atoms).
+   Guard wfm = wf with `m = None` replaced by: for a quantifier with match expression me,
+     mexpr_unambiguous ref me   (all prefix trees of me that match a node of ref bind the same
+                                 positions — in particular: at most one matches),
+     mexpr_tree_ok v dom tp     for every prefix tree tp of me (mtree_okb, no closed nonterminal
+                                 leaf, names of its variables pairwise distinct, different from the
+                                 quantified variable's name and from every name in scope),
+   and on the tree additionally term_leavesb (terminal-labelled nodes have no children). *)
+Theorem C03_eval_correct_mexpr :
+  forall (A : Type) (afree : A -> list var) (aopen : A -> bool) (aeval : A -> asg -> res TV)
+         (qmm : var -> path -> option mexpr -> asg -> path -> bool) (reach : str -> str -> bool)
+         (count_open : tree -> str -> Z -> res TV)
+         (adenote : A -> (var -> option tree) -> Prop) (ref : tree),
+  shape_ok ref = true -> is_openT ref = false -> uniq_ids ref -> narrow ref -> term_leavesb ref = true ->
+  (forall x a b, inv ref a b -> (forall v, In v (afree x) -> In v (keys a)) -> aopen x = false ->
+     (aeval x a = Ok TT /\ adenote x (tenv ref b)) \/ (aeval x a = Ok FF /\ ~ adenote x (tenv ref b))) ->
+  forall f, wfm A afree aopen ref [] f ->
+    (eval_legacy A afree aopen aeval qmm reach count_open ref f [] = Ok TT <-> models adenote ref env_empty f) /\
+    (eval_legacy A afree aopen aeval qmm reach count_open ref f [] = Ok FF <-> ~ models adenote ref env_empty f) /\
+    eval_legacy A afree aopen aeval qmm reach count_open ref f [] <> Ok UU /\
+    (forall e, eval_legacy A afree aopen aeval qmm reach count_open ref f [] <> Raise e).
+Proof. exact eval_correct_mexpr_top. Qed.
+Print Assumptions C03_eval_correct_mexpr.
+
+(* the same under an arbitrary assignment (the induction-loaded statement) *)
+Theorem C03_eval_correct_mexpr_open_scope :
+  forall (A : Type) (afree : A -> list var) (aopen : A -> bool) (aeval : A -> asg -> res TV)
+         (qmm : var -> path -> option mexpr -> asg -> path -> bool) (reach : str -> str -> bool)
+         (count_open : tree -> str -> Z -> res TV)
+         (adenote : A -> (var -> option tree) -> Prop) (ref : tree),
+  shape_ok ref = true -> is_openT ref = false -> uniq_ids ref -> narrow ref -> term_leavesb ref = true ->
+  (forall x a b, inv ref a b -> (forall v, In v (afree x) -> In v (keys a)) -> aopen x = false ->
+     (aeval x a = Ok TT /\ adenote x (tenv ref b)) \/ (aeval x a = Ok FF /\ ~ adenote x (tenv ref b))) ->
+  forall f a b, inv ref a b -> wfm A afree aopen ref (keys a) f ->
+    (eval_legacy A afree aopen aeval qmm reach count_open ref f a = Ok TT /\ models adenote ref b f) \/
+    (eval_legacy A afree aopen aeval qmm reach count_open ref f a = Ok FF /\ ~ models adenote ref b f).
+Proof. exact eval_correct_mexpr. Qed.
+Print Assumptions C03_eval_correct_mexpr_open_scope.
+
+(* the new guard contains the old one: C03_eval_correct_mexpr subsumes C03_eval_correct_partial *)
+Theorem C03_wf_wfm : forall (A : Type) (afree : A -> list var) (aopen : A -> bool) (ref : tree) f dom,
+  wf A afree aopen ref dom f -> wfm A afree aopen ref dom f.
+Proof. exact wf_wfm. Qed.
+Print Assumptions C03_wf_wfm.
+
+(* concrete atoms: no premise on atoms *)
+Theorem C03_eval_correct_mexpr_atoms : forall ref f,
+  shape_ok ref = true -> is_openT ref = false -> uniq_ids ref -> narrow ref -> term_leavesb ref = true ->
+  wfm atom atom_free (fun _ => false) ref [] f ->
+  (m_legacy ref f = Ok TT <-> models atom_denote ref env_empty f) /\
+  (m_legacy ref f = Ok FF <-> ~ models atom_denote ref env_empty f) /\
+  m_legacy ref f <> Ok UU /\ (forall e, m_legacy ref f <> Raise e).
+Proof. exact eval_correct_mexpr_atoms. Qed.
+Print Assumptions C03_eval_correct_mexpr_atoms.
+
+(* all hypotheses are decidable: the boolean guard the harness evaluates is sound *)
+Theorem C03_mexpr_guard_sound : forall ref f, mexpr_guard ref f = true ->
+  shape_ok ref = true /\ is_openT ref = false /\ uniq_ids ref /\ narrow ref /\ term_leavesb ref = true /\
+  wfm atom atom_free (fun _ => false) ref [] f.
+Proof. exact mexpr_guard_hyps. Qed.
+Print Assumptions C03_mexpr_guard_sound.
+
+Theorem C03_mexpr_unambiguousb_sound : forall ref me,
+  mexpr_unambiguousb ref me = true -> mexpr_unambiguous ref me.
+Proof. exact mexpr_unambiguousb_spec. Qed.
+Print Assumptions C03_mexpr_unambiguousb_sound.
+
+(* non-vacuity: real match expressions of the assignment language (prefix trees computed by
+   BindExpression.to_tree_prefix).  M1/M2: "every variable on a right-hand side is assigned before"
+     forall <assgn> a="{<var> lhs} := {<var> rhs}" in start:
+       exists <assgn> d="{<var> l2} := <rhs>" in start: (before(d, a) and (= l2 rhs))
+   on "x := 1 ; y := x" (TT) and "x := 1 ; y := z" (FF);  M3 has an optional, i.e. TWO prefix trees:
+     forall <stmt> s="{<assgn> a}[ ; <stmt>]" in start: exists <var> v in a: (= v "x")   (TT) *)
+Example C03_mexpr_hypotheses_satisfiable :
+  (shape_ok M1_tree = true /\ is_openT M1_tree = false /\ uniq_ids M1_tree /\ narrow M1_tree /\
+   term_leavesb M1_tree = true /\ wfm atom atom_free (fun _ => false) M1_tree [] M1_formula) /\
+  m_legacy M1_tree M1_formula = Ok TT /\
+  mexpr_guard M2_tree M2_formula = true /\ m_legacy M2_tree M2_formula = Ok FF /\
+  mexpr_guard M3_tree M3_formula = true /\ m_legacy M3_tree M3_formula = Ok TT.
+Proof. exact eval_correct_mexpr_example. Qed.
+Print Assumptions C03_mexpr_hypotheses_satisfiable.
+
+(* the known class K_mexpr_eps_shape stays excluded: its witnesses fail the guard *)
+Example C03_mexpr_eps_shape_rejected :
+  K_mexpr_eps_shape W3_formula = true /\ K_mexpr_eps_shape W3p_formula = true /\
+  mexpr_guard W3_tree W3_formula = false /\ mexpr_guard W3p_tree W3p_formula = false /\
+  wfmb W3_tree [] W3_formula = false /\ wfmb W3p_tree [] W3p_formula = false.
+Proof. exact mexpr_eps_shape_rejected. Qed.
+Print Assumptions C03_mexpr_eps_shape_rejected.
+
+(* refuted WITHOUT mexpr_unambiguous (model level; the prefix trees are inputs of the model): two
+   well-formed prefix trees for <assgn> that both match "y := x" and bind l differently.  The
+   evaluator takes the first match (FF), the specification ranges over both (true); every other
+   hypothesis of C03_eval_correct_mexpr_atoms holds.  Hand-made set — no match expression was found
+   for which BindExpression.to_tree_prefix returns such a set, hence not recorded as a finding. *)
+Theorem C03_eval_mexpr_ambiguous_refuted :
+  shape_ok W2_tree = true /\ is_openT W2_tree = false /\ uniq_ids W2_tree /\ narrow W2_tree /\
+  term_leavesb W2_tree = true /\
+  mexpr_tree_ok A_a [] A_T1 /\ mexpr_tree_ok A_a [] A_T2 /\
+  wfm atom atom_free (fun _ => false) W2_tree (A_a :: map fst (snd A_T1)) (FSmt (AStr false (SVar A_l) (SLit [120]%N))) /\
+  wfm atom atom_free (fun _ => false) W2_tree (A_a :: map fst (snd A_T2)) (FSmt (AStr false (SVar A_l) (SLit [120]%N))) /\
+  ~ mexpr_unambiguous W2_tree A_me /\
+  m_legacy W2_tree A_formula = Ok FF /\ models atom_denote W2_tree env_empty A_formula.
+Proof. exact eval_mexpr_ambiguous_refuted. Qed.
+Print Assumptions C03_eval_mexpr_ambiguous_refuted.
